@@ -220,6 +220,60 @@ theorem refreshTrig_spec (cfg : Cfg) (st : State) (h : Inv cfg st) :
   show TrigInv cfg.trig st.allWaves (catchTrig cfg.trig st.allWaves st.triggers)
   rw [this]; exact trigInv_full _ _
 
+theorem refreshAll_signals (cfg : Cfg) (st : State) : (refreshAll cfg st).signals = st.signals := by
+  show (if cfg.noisy && needsFull st.signals st.allWaves then touch st else st).signals = st.signals
+  split
+  · exact touch_signals st
+  · rfl
+
+/-- where `is_hit_mc_truth` leaves the antenna: the refreshed caches, plus the noise master if a
+triggered waveform had to be compared with its noise -/
+theorem step_qHitMC_fst (cfg : Cfg) (st : State) :
+    (step cfg st .qHitMC).1 = refreshTrig cfg (refreshAll cfg st) ∨
+    (step cfg st .qHitMC).1 = touch (refreshTrig cfg (refreshAll cfg st)) := by
+  simp only [step, stepWith]
+  split
+  · split
+    · left; rfl
+    · right; rfl
+  · left; rfl
+
+/-- the state in which `waveforms` / `is_hit` / `is_hit_mc_truth` leave the antenna reached by `ops` -/
+def afterWaveforms (cfg : Cfg) (ops : List Op) : State := refreshTrig cfg (refreshAll cfg (run cfg ops))
+
+/-- `is_hit_mc_truth` as a function of the refreshed state -/
+def mcOut (cfg : Cfg) (st' : State) : State × Out :=
+  let ws := triggeredOf st'.allWaves st'.triggers
+  if cfg.noisy then
+    let st'' := if ws.isEmpty then st' else touch st'
+    (st'', .flag (ws.any (fun w => !cfg.trig (noiseWave cfg (st''.master.getD 0) (timesOf w)))))
+  else (st', .flag (decide (0 < ws.length)))
+
+theorem step_qHitMC_eq (cfg : Cfg) (st : State) :
+    step cfg st .qHitMC = mcOut cfg (refreshTrig cfg (refreshAll cfg st)) := rfl
+
+theorem mcOut_eq (cfg : Cfg) (X : State) (hI : Inv cfg X) (W : List Wave)
+    (hws : triggeredOf X.allWaves X.triggers = W) :
+    mcOut cfg X = (X, .flag (if cfg.noisy then
+        W.any (fun w => !cfg.trig (noiseWave cfg (X.master.getD 0) (timesOf w)))
+      else decide (0 < W.length))) := by
+  unfold mcOut
+  simp only [hws]
+  by_cases hn : cfg.noisy = true
+  · have hst : (if W.isEmpty then X else touch X) = X := by
+      split
+      · rfl
+      · rename_i hne
+        apply touch_of_some
+        apply hI.1.master hn
+        intro hnil
+        apply hne
+        rw [← hws]
+        simp [triggeredOf, hnil]
+    simp only [hn, if_true, hst]
+  · have hn' : cfg.noisy = false := by simpa using hn
+    simp only [hn', Bool.false_eq_true, if_false]
+
 theorem inv_init (cfg : Cfg) : Inv cfg init := by
   refine ⟨⟨by simp [init], by simp [init], by simp [init, TrigInv], by simp [init]⟩, by simp [init]⟩
 
@@ -259,6 +313,11 @@ theorem inv_step (cfg : Cfg) (st : State) (op : Op) (h : Inv cfg st) : Inv cfg (
     split at hme
     · simp at hme
     · exact he e hme
+  | qHitMC =>
+    have h0 := (refreshTrig_spec cfg _ (refreshAll_spec cfg st h).1).1
+    rcases step_qHitMC_fst cfg st with h1 | h1
+    · rw [h1]; exact h0
+    · rw [h1]; exact inv_touch cfg _ h0
 
 theorem inv_foldl (cfg : Cfg) (ops : List Op) (st : State) (h : Inv cfg st) :
     Inv cfg (ops.foldl (fun st op => (step cfg st op).1) st) := by
@@ -285,11 +344,18 @@ theorem step_signals (cfg : Cfg) (st : State) (op : Op) :
       | .recv s => st.signals ++ [s]
       | .clear _ => []
       | _ => st.signals) := by
+  by_cases hq : op = .qHitMC
+  · subst hq
+    show (step cfg st .qHitMC).1.signals = st.signals
+    rcases step_qHitMC_fst cfg st with h1 | h1
+    · rw [h1]; exact refreshAll_signals cfg st
+    · rw [h1, touch_signals]; exact refreshAll_signals cfg st
   cases op <;> simp only [step, stepWith, refreshTrig, refreshAllWith] <;>
     first
     | rfl
     | (split <;> first | rfl | exact touch_signals st)
     | exact touch_signals st
+    | (exact absurd rfl hq)
     | skip
   all_goals (split <;> first | rfl | exact touch_signals st)
 
@@ -324,6 +390,36 @@ theorem step_query_master (cfg : Cfg) (st : State) (op : Op) (hq : isQuery op = 
   | qHit => simp only [step, stepWith, refreshTrig, refreshAllWith]; split <;> first | (left; rfl) | (right; rfl)
   | qFull ts => simp only [step, stepWith]; split <;> first | (left; rfl) | (right; rfl)
   | qHitDuring ts => simp only [step, stepWith]; split <;> first | (left; rfl) | (right; rfl)
+  | qHitMC =>
+    -- the refresh keeps the master or creates it exactly as `touch st` would; a later `touch` agrees
+    have hR : ((refreshAll cfg st).master = st.master ∧ (refreshAll cfg st).nextEpoch = st.nextEpoch) ∨
+        (refreshAll cfg st).master = (touch st).master ∧ (refreshAll cfg st).nextEpoch = (touch st).nextEpoch := by
+      show ((if cfg.noisy && needsFull st.signals st.allWaves then touch st else st).master = st.master ∧
+          (if cfg.noisy && needsFull st.signals st.allWaves then touch st else st).nextEpoch = st.nextEpoch) ∨
+        ((if cfg.noisy && needsFull st.signals st.allWaves then touch st else st).master = (touch st).master ∧
+          (if cfg.noisy && needsFull st.signals st.allWaves then touch st else st).nextEpoch = (touch st).nextEpoch)
+      split
+      · right; exact ⟨rfl, rfl⟩
+      · left; exact ⟨rfl, rfl⟩
+    have hT : ∀ a b : State, a.master = b.master → a.nextEpoch = b.nextEpoch →
+        (touch a).master = (touch b).master := by
+      intro a b h1 h2
+      unfold touch
+      cases ha : a.master with
+      | some x => rw [← h1, ha]; simp only []; rw [← h1, ha]
+      | none => rw [← h1, ha]; simp [h2]
+    rcases step_qHitMC_fst cfg st with h1 | h1
+    · rw [h1]
+      rcases hR with h | h
+      · left; exact h.1
+      · right; exact h.1
+    · rw [h1]
+      right
+      rcases hR with h | h
+      · exact hT _ _ h.1 h.2
+      · have : (touch (refreshTrig cfg (refreshAll cfg st))).master = (touch (touch st)).master :=
+          hT _ _ h.1 h.2
+        rw [this, touch_of_some (touch st) (touch_master_ne st)]
 
 /-! ### the antenna system -/
 def SysInv (c : SysCfg) (st : SysState) : Prop :=
@@ -444,6 +540,12 @@ theorem sysInv_step (c : SysCfg) (st : SysState) (op : SysOp) (h : SysInv c st) 
     obtain ⟨hi, hc, hs, hsl⟩ := h
     refine ⟨inv_step _ _ _ hi, ⟨by simp [sysStep], by simp [sysStep, step, stepWith],
       by simp [sysStep, TrigInv], by simp [sysStep]⟩, by simp [sysStep], by simp [sysStep]⟩
+  | qHitMC =>
+    have h0 := (sysRefreshTrig_spec c _ (sysRefreshAll_spec c st h).1).1
+    simp only [sysStep]
+    split
+    · exact h0
+    · exact sysInv_touch c _ h0
   | inner op =>
     simp only [sysStep]
     split
